@@ -60,21 +60,65 @@ def _sym(a, k):
     return np.ascontiguousarray(a)
 
 
-def _window(a, win):
-    """Cut a window out of a skeleton and close it with a one-pixel frame so that the cut
-    cells are closed polygons again (the frame is part of the skeleton)."""
+_REGIONS = {}
+
+
+def _regions(file):
+    """Connected black regions (the cells) of a shipped skeleton: labels, stats, centroids."""
+    import cv2
+    if file not in _REGIONS:
+        a = _load(file)
+        inv = (a == 0).astype(np.uint8)
+        n, lab, stats, cent = cv2.connectedComponentsWithStats(inv, connectivity=4)
+        H, W = a.shape
+        border = set(np.unique(lab[0, :])) | set(np.unique(lab[-1, :])) | set(np.unique(lab[:, 0])) | set(np.unique(lab[:, -1]))
+        areas = stats[:, cv2.CC_STAT_AREA]
+        inner = [i for i in range(1, n) if i not in border and areas[i] >= 30]
+        med = float(np.median([areas[i] for i in inner])) if inner else 0.0
+        cells = [i for i in inner if areas[i] <= 5 * med]
+        _REGIONS[file] = (lab, cent, cells)
+    return _REGIONS[file]
+
+
+def _window(file, win):
+    """A sub-tissue of a shipped skeleton: the complete cells whose centroid lies in the window,
+    drawn with exactly the skeleton pixels of the original image that touch them (so junction
+    pixel patterns are the original ones and every line that remains separates a kept cell from
+    something).  Stubs of lines that led to dropped cells are pruned."""
+    import cv2
+    a = _load(file)
+    lab, cent, cells = _regions(file)
     fx, fy, size = win
     H, W = a.shape
     h = min(size, H)
     w = min(size, W)
-    y0 = int(fy * (H - h))
-    x0 = int(fx * (W - w))
-    b = a[y0:y0 + h, x0:x0 + w].copy()
-    b[0, :] = 255
-    b[-1, :] = 255
-    b[:, 0] = 255
-    b[:, -1] = 255
-    return b
+    for k in range(16):
+        gx = (fx + 0.0618 * k) % 1.0
+        gy = (fy + 0.0382 * k) % 1.0
+        y0 = int(gy * (H - h))
+        x0 = int(gx * (W - w))
+        sel = [i for i in cells if x0 <= cent[i][0] < x0 + w and y0 <= cent[i][1] < y0 + h]
+        if len(sel) >= 3:
+            break
+    else:
+        return a
+    mask = np.isin(lab, sel).astype(np.uint8)
+    dil = cv2.dilate(mask, np.ones((3, 3), np.uint8))
+    sk = ((a > 0) & (dil > 0)).astype(np.uint8)
+    # prune stubs: white pixels with at most one white 8-neighbour
+    ker = np.ones((3, 3), np.float32)
+    ker[1, 1] = 0
+    for _ in range(12):
+        nb = cv2.filter2D(sk.astype(np.float32), -1, ker, borderType=cv2.BORDER_CONSTANT)
+        end = (sk > 0) & (nb <= 1)
+        if not end.any():
+            break
+        sk[end] = 0
+    ys, xs = np.nonzero(sk)
+    if len(ys) == 0:
+        return a
+    sk = sk[max(0, ys.min() - 2):ys.max() + 3, max(0, xs.min() - 2):xs.max() + 3]
+    return np.ascontiguousarray(sk * 255)
 
 
 def image_bytes(inp):
@@ -84,7 +128,7 @@ def image_bytes(inp):
     else:
         a = _load(inp["file"])
         if inp.get("window"):
-            a = _window(a, inp["window"])
+            a = _window(inp["file"], inp["window"])
         a = _sym(a, inp.get("sym", 0))
     pad = inp.get("pad", 0) + 2
     a = np.pad(a, pad)
@@ -96,7 +140,8 @@ def image_bytes(inp):
 # ---------------------------------------------------------------- synthetic rasters
 def random_raster_input(r, tier):
     from . import tissue as TS
-    spec = TS.random_spec(r, max_side=4, kmax=0)
+    # C15's input domain: every ridge longer than 8 pixels (0.3 lattice units at >= 28 px per unit)
+    spec = TS.random_spec(r, max_side=4, kmax=0, min_ridge=0.3)
     spec["pts"] = {"mode": "const", "k": 0}
     spec["keep"] = None if r.random() < 0.6 else spec["keep"]
     if spec["keep"] is None and not TS.spec_ok(spec):
